@@ -35,31 +35,32 @@ type LoopContract struct {
 }
 
 type FuncContract struct {
-	Ref        string
-	Pkg        string
-	Fn         *ssa.Function
-	Params     []string
-	Results    []string
-	Props      []string
-	Requires   []*Clause
-	Ensures    []*Clause
-	Modifies   []*Clause
-	Loops      map[int]*LoopContract
-	Trusted    bool // contract assumed, body not verified
-	InlineOnly bool // callers inline the body; contract only used when verifying the function itself
-	NoSafety   bool
-	AllocBound *Clause
-	Own        []string // "noalias result input" style ownership clauses: pairs
-	Pure       bool
-	Line       string
-	Ghost      []string
-	Appends    []*AppendClause
-	AllowGlobals bool    // frame: package-level state (the atomic id counter) may change
-	InlineCalls bool     // calls to library functions are executed, not abstracted by their contracts (lemma functions)
-	ModReach   bool      // frame: everything reachable from the receiver may change (decoders fill owned buffers)
-	Auto       bool      // synthesised for an implementer of a contracted interface
-	RefinePre  []*Clause // interface preconditions that must imply this contract's own preconditions
-	Inherited  []string  // interface methods whose clauses were inherited
+	Ref          string
+	Pkg          string
+	Fn           *ssa.Function
+	Params       []string
+	Results      []string
+	Props        []string
+	Requires     []*Clause
+	Ensures      []*Clause
+	Modifies     []*Clause
+	Loops        map[int]*LoopContract
+	Trusted      bool // contract assumed, body not verified
+	InlineOnly   bool // callers inline the body; contract only used when verifying the function itself
+	NoSafety     bool
+	AllocBound   *Clause
+	Own          []string // "noalias result input" style ownership clauses: pairs
+	Pure         bool
+	Line         string
+	Ghost        []string
+	Appends      []*AppendClause
+	AllowGlobals bool      // frame: package-level state (the atomic id counter) may change
+	InlineCalls  bool      // calls to library functions are executed, not abstracted by their contracts (lemma functions)
+	Unroll       int       // lemma functions: loops of inlined callees are unrolled up to this many header visits, with an unwinding obligation
+	ModReach     bool      // frame: everything reachable from the receiver may change (decoders fill owned buffers)
+	Auto         bool      // synthesised for an implementer of a contracted interface
+	RefinePre    []*Clause // interface preconditions that must imply this contract's own preconditions
+	Inherited    []string  // interface methods whose clauses were inherited
 }
 
 type AppendClause struct {
@@ -642,6 +643,13 @@ func (db *ContractDB) parseFile(pkg, file string) {
 				curF.InlineCalls = true
 			case "modreach":
 				curF.ModReach = true
+			case "unroll":
+				n, e := strconv.Atoi(strings.TrimSpace(rest))
+				if e != nil || n < 1 {
+					db.errf(ln, "unroll <positive count>")
+					continue
+				}
+				curF.Unroll = n
 			case "pure":
 				curF.Pure = true
 			case "allocbound":
@@ -1048,7 +1056,19 @@ func bindFreeVar(env *Env, st *State, fv *ssa.FreeVar, v Value) {
 	env.bind(fv.Name(), v, fv.Type())
 }
 
-func (ex *Exec) evalBoolClause(st *State, env *Env, c *Clause) *Term {
+type assertMismatch struct{}
+
+func (ex *Exec) evalBoolClause(st *State, env *Env, c *Clause) (res *Term) {
+	curPC = st.pc
+	defer func() {
+		if r := recover(); r != nil {
+			if _, ok := r.(*assertMismatch); ok {
+				res = False
+				return
+			}
+			panic(r)
+		}
+	}()
 	env = env.withState(st)
 	env.in = c.Text
 	r := env.eval(c.Expr)
@@ -1168,7 +1188,10 @@ func (e *Env) eval(x ast.Expr) tv {
 		if err != nil {
 			evalFail("contract drift: %v in %q", err, e.in)
 		}
-		if iv.Dyn == nil || !types.Identical(iv.Dyn, t) {
+		if iv.Dyn != nil && !types.Identical(iv.Dyn, t) {
+			panic(&assertMismatch{}) // the clause cannot hold on this path (evaluates to false)
+		}
+		if iv.Dyn == nil {
 			evalFail("type assertion %s.(%s) not decided by the dynamic type in %q (state it with typeis first)", exprText(n.X), exprText(n.Type), e.in)
 		}
 		return tv{iv.Val, t}
@@ -2209,7 +2232,6 @@ func (e *Env) evalLocOrValue(x ast.Expr) (VPtr, types.Type) {
 	return loc, t
 }
 
-
 // bufView: contents of a bytes.Buffer (given as *bytes.Buffer, bytes.Buffer, or a struct embedding one,
 // e.g. util.Buffer / *util.Buffer): byte memory, absolute offset of content byte 0, content length.
 func (e *Env) bufView(a tv) (*ByteMem, *Term, *Term) {
@@ -2278,7 +2300,6 @@ func (e *Env) bufPtr(a tv) (VPtr, types.Type) {
 	return VPtr{}, nil
 }
 
-
 // bbytes_eq(buf, at, slice, soff, n): n content bytes of the buffer from position at equal slice[soff:soff+n].
 // bzero(buf, from, to): content bytes in [from, to) are zero. Both are checked at a skolem index (use positively).
 func (e *Env) bufBytesEq(name string, n *ast.CallExpr) tv {
@@ -2305,7 +2326,6 @@ func (e *Env) bufBytesEq(name string, n *ast.CallExpr) tv {
 	r := Implies(ULt(i, ln), Eq(mem.Read(Add(off, Add(at, i))), e.readByte(s, Add(so, i))))
 	return tv{VBool{r}, types.Typ[types.Bool]}
 }
-
 
 // bufBytesAssume applies bbytes_eq / bzero constructively to the buffer's backing object.
 func (e *Env) bufBytesAssume(name string, n *ast.CallExpr) tv {
